@@ -138,6 +138,17 @@ def run(ctx):
                     b = bytearray(pbody); b[-off] ^= 0x21
                     probe("padblock/flip", pyref.armor(bytes(b)), group=name)
                 probe("padblock/dropblock", pyref.armor(pbody[:-bs]), group=name)
+            # suffix re-framing (round 8: an early "empty plaintext" error in dec_decrypt): block k-1 of the ciphertext as the IV
+            # and blocks k.. as the ciphertext decrypt, without the key, to a SUFFIX of the genuine plaintext with VALID padding -
+            # down to zero plaintext bytes when the last block is pure padding.  All of them fail the MAC and must be answered
+            # exactly like a padding failure.
+            for src_body, tag in ((body, "reframe"), (hostile.unarmor(rp["data"]) if rp and rp["error_num"] == 0 else None, "padblock/reframe")):
+                if src_body is None or ivl != bs:
+                    continue
+                ct = src_body[olen + ml:]
+                nblk = len(ct) // bs
+                for k in sorted({1, 2, nblk // 2, nblk - 2, nblk - 1} & set(range(1, nblk))):
+                    probe(tag, pyref.armor(src_body[:5] + ct[(k - 1) * bs:k * bs] + src_body[olen:olen + ml] + ct[k * bs:]), group=name)
         # unauthorized decode of a valid credential, retry overflow, armor faults
         r2, _ = cr.encode_both(uid=1234, gid=5678, cipher=c, mac=mc, zip_=z, data=b"for uid 77 only", auth_uid=77)
         if r2 and r2["error_num"] == 0:
